@@ -13,8 +13,13 @@ def decode(p):
     try:
         if f[0] == "X":
             mode = {"p": "plain", "t": "inside try { } except { x.mark(1) }", "s": "as the body of a sink triggered by an event",
-                    "d": "as one of two sinks on the same event", "w": "as a sink triggered twice"}[f[1]]
+                    "d": "as the LAST of two sinks on the same event", "f": "as the FIRST of two sinks on the same event",
+                    "m": "as the middle one of three sinks on the same event", "w": "as a sink triggered twice"}[f[1]]
             return {"kind": f[2], "mode": mode, "source": bytes.fromhex(f[4]).decode("utf8", "replace") if f[4] != "-" else ""}
+        if f[0] == "D":
+            return {"kind": "acyclic container nested deeply, then one operation that recurses over it in Go", "variant": f[1], "depth": int(f[2])}
+        if f[0] == "T":
+            return {"kind": "cron + pulse trigger firing after Processor.Finish()"}
         if f[0] == "K":
             return {"kind": "shared container, sink triggered without waiting", "variant": f[1], "workers": int(f[2]),
                     "mutex": f[3] == "1", "iterations": int(f[4])}
@@ -32,10 +37,10 @@ def decode(p):
 GEN = os.path.join(checklib.LEAN, "Ecal", "Gen", "C06.lean")
 BASELINE = os.path.join(checklib.LEAN, "Ecal", "Gen", "C06Expected.txt")
 
-ALL_FAMILIES = ["conc", "sinkattr2", "directed", "corpus", "binop", "prefix", "read", "write", "read2", "write2", "write3", "dot", "dotw",
+ALL_FAMILIES = ["conc", "depth", "trigger", "import", "sinkattr2", "directed", "corpus", "binop", "prefix", "read", "write", "read2", "write2", "write3", "dot", "dotw",
                 "builtin", "sinkattr", "event", "random"]
 SCOPE_FAMILIES = ["read", "write", "read2", "write2", "write3", "dot", "dotw", "directed", "random"]
-ENGINE_FAMILIES = ["event", "sinkattr", "sinkattr2", "conc", "directed"]
+ENGINE_FAMILIES = ["event", "sinkattr", "sinkattr2", "conc", "trigger", "depth", "directed"]
 BUILTIN_TYPES = {"rangeFunc": ["range"], "newFunc": ["new"], "typeFunc": ["type"], "lenFunc": ["len"], "delFunc": ["del"],
                  "addFunc": ["add"], "concatFunc": ["concat"], "nowFunc": ["now"], "randFunc": ["rand"],
                  "timestampFunc": ["timestamp"], "dumpenvFunc": ["dumpenv"], "docFunc": ["doc"], "sleepFunc": ["sleep"],
@@ -221,7 +226,9 @@ SPEC = dict(
         "the census extractor (go/ast, syntactic) only steers the search; it is not an obligation",
     ],
     assumptions=[
-        "no cyclic container reaches a stringification (known finding cyclic-container-stringify: fatal Go stack overflow)",
+        "READING of 'inside a sink it fails only that sink invocation' (decision of the coordinator; C10's text makes fail-on-first-error the intended default for every ECAL runtime, interpreter/provider.go): the error is reported for that sink and does not escape the trigger sequence of ITS event - no later event, no worker, no host is affected - but the sinks of the SAME event that come after the failing one do not run. Modes d / f / m test exactly this (failing sink last / first / in the middle of three, followed by a second event)",
+        "no cyclic or very deeply nested (about 10^5 and more) container reaches an operation that recurses over it in Go: printing (fmt / stringutil: interpolation, log, error detail, type(), the return statement's 'Return value: %v') or deep comparison (reflect.DeepEqual: ==, !=, in, notin, statematch) - known finding cyclic-container-stringify: fatal Go stack overflow",
+        "non-termination that is not written by the user but is C04's subject is out of scope here: `for a in f()` with f returning range(3) never ends (cross-reference C04 / agent-EVAL)",
         "a container shared by several ECAL threads is only used inside `mutex` blocks (known finding unsynchronised-shared-container: fatal 'concurrent map' error otherwise)",
         "user-written non-termination is outside the property (e.g. `for a in range(1, 0) { }`, a sink that waits for an event only it can process)",
         "user-supplied Go functions (stdlib bridge) are outside the property",
@@ -249,16 +256,23 @@ META = dict(
                 "PROVED about TRANSCRIPTIONS that no theorem ties to /repo (Ecal/Model/Prims.lean): builtin argument checks of "
                 "len/add/del/concat/range/raise/type (compared with Go only where the driver falls back to them, about 13 % of the builtin cases), "
                 "sink-attribute kind check and statematch key test (guard and panic condition are the same predicate by transcription). "
-                "TESTED, not proved: everything about the engine (rule registration, matching, workers, 'fails only that invocation': modes s/d/w, "
-                "families A, E), validation, the builtins outside the model, sink/import/mutex, concurrency (family K). Any PANIC/CRASH/HANG of the "
+                "TESTED, not proved: everything about the engine (rule registration, matching, workers; 'fails only that invocation' in the declared "
+                "reading - the error stays inside the trigger sequence of its event, later sinks of the SAME event do not run (fail-on-first-error, "
+                "C10) - modes s/d/f/m/w, families A, E), the builtins outside the model (28 % of the cases are outside the model: measured per run, "
+                "evidence outside_model_not_compared; there only crash + the Go-vs-Go metamorphic rule apply), imported units, sink/mutex, triggers "
+                "firing after Finish (T), concurrency (K), deep nesting (D). Compared observable: value / error value / control signal / validation "
+                "error / no parse + x.mark markers - never error type, text, position (C03/C04). Any PANIC/CRASH/HANG of the "
                 "real code is a violation, also on cases outside the model; crashes are classified by the Go runtime's own message."),
-    level_note=("Two recorded findings, not repaired: (a) cyclic-container-stringify - a container that contains itself overflows the Go stack when "
-                "it is printed (fmt / stringutil), fatal; (b) unsynchronised-shared-container - ECAL offers `mutex` for shared data; two ECAL threads "
+    level_note=("Two recorded findings, not repaired: (a) cyclic-container-stringify - a container that contains itself, or an acyclic one nested about "
+                "10^5..10^6 deep, overflows the Go stack when Go recurses over it: printing (interpolation, log, error detail, type(), return of such a "
+                "value) or reflect.DeepEqual (==, in, statematch), fatal; shallow nesting (10^3, 10^4) works and is checked on every run; (b) unsynchronised-shared-container - ECAL offers `mutex` for shared data; two ECAL threads "
                 "(main thread and a sink triggered by addEvent without waiting, or two workers) that use ONE Go map without it end the host with "
                 "'fatal error: concurrent map read and map write'; a repair needs locking in every container access (for-in, del, len, add, index), "
                 "so it is recorded; the mutex-protected variants of the same programs never crash (checked on every run). "
-                "Not proved: error_in_sink_local / match_total / sink_attr_total of DESIGN 4 (the engine is not modelled: tested by families A, E, K and "
-                "modes s/d/w only). The census is data, not an obligation."),
+                "Not proved: error_in_sink_local (in the declared reading) / match_total / sink_attr_total of DESIGN 4 (the engine is not modelled: "
+                "tested by families A, E, K, T and modes s/d/f/m/w only). model_is_guard_then_primitive ties list read, map-literal store and == to "
+                "definitions of Ecal.Ev; for %, operand checks, del, add the guard in Eval.lean is the same BY INSPECTION and tied to Go by the directed "
+                "cases. `for a in f()` with f returning an iterator never ends: C04's finding, out of scope here. The census is data, not an obligation."),
 )
 
 
@@ -283,7 +297,7 @@ def _run_driver(ctx, prop, cases, *a, **kw):
         inside = sum(1 for at in progs if at["frag"] == "1")
         ctx.coverage["frag_share"] = {"program_cases": len(progs), "inside_Frag": inside,
                                       "share": round(inside / len(progs), 4),
-                                      "meaning": "generated programs (tree from the real parser) for which fragB holds, i.e. to which eval_never_panics_partial applies"}
+                                      "meaning": "generated programs (tree from the real parser) for which fragB holds, i.e. to which eval_never_panics_frag applies"}
     for i, (m, attrs) in list(model.items()):
         if attrs.get("cyc") == "1" and _last_go.get(i) == "CRASH so-stringify":
             model[i] = ("CRASH so-stringify", {"kf": "cyclic-container-stringify", "spec": "CRASH so-stringify"})
